@@ -145,7 +145,7 @@ def run_reuse(n, prog, edit, vin, env, acc):
     def experiment(circuits):
         return [tomo.outcome_frequencies(c, n, vin) for c in circuits]
 
-    acc.tick("executions", 2); acc.tick("transitions", 2)
+    acc.tick("executions", 2); acc.tick("transitions", 2); acc.tick("reuse_scenarios")
     st = StateTomography(n, base, experiment)
     try:
         rho1 = st.process().copy()
